@@ -170,6 +170,17 @@ def run_sweep_case(asm, acc, case):
         if reachable:
             acc['ctr']['refused_reachable'] += 1
             core.see(acc, 'refused_reachable_cells', cell + ':' + ex.exc['msg'][:40])
+            # "wherever the label lies": a target inside the reach of the transfer cannot be turned down.  The build that was refused
+            # may not have the distance D (the gap search stops at a refusal), so the witness must come from the refusal itself:
+            # call / tail reach every 32-bit distance; for the others the offset named in the message must lie inside the reach
+            import re
+            mo = re.search(r': (-?\d+)$', ex.exc['msg'].strip())
+            named = int(mo.group(1)) if mo else None
+            if x[1] in ('call', 'tail') or (named is not None and lo <= named <= hi and named % 2 == 0):
+                core.add_viol(acc, 'transfer %s to a label (compress=%s, reach %d..%d) is refused: %s' % (
+                    '%s:%s' % x, compress, lo, hi, ex.exc['msg'][:120]), rcase, {'lines': [l[:80] for l in ex.lines][:12]})
+            else:
+                acc['ctr']['refused_while_searching_the_gap'] += 1
         else:
             acc['ctr']['refused_unreachable'] += 1
         return
